@@ -17,6 +17,7 @@ import (
 	"crypto/sha256"
 	"encoding/hex"
 	"encoding/json"
+	"errors"
 	"fmt"
 	"hash"
 	"math/rand/v2"
@@ -26,9 +27,11 @@ import (
 	"strings"
 	"sync"
 	"sync/atomic"
+	"syscall"
 	"testing"
 	"time"
 
+	"github.com/buildbarn/bb-remote-execution/pkg/builder"
 	"github.com/buildbarn/bb-remote-execution/pkg/filesystem/virtual"
 	bazeloutputservicerev2 "github.com/buildbarn/bb-remote-execution/pkg/proto/bazeloutputservice/rev2"
 	"github.com/buildbarn/bb-remote-execution/pkg/proto/outputpathpersistency"
@@ -57,11 +60,14 @@ type mfile struct {
 	leaf  virtual.Leaf
 	ifile *instrFile
 
-	links   int
-	opens   []virtual.ShareMask
-	frozen  []filesystem.FileReader
-	content []byte
-	dead    bool // reference count reached zero
+	links     int
+	opens     []virtual.ShareMask
+	frozen    []filesystem.FileReader
+	content   []byte
+	dead      bool // reference count reached zero
+	exec      bool
+	fh        []byte // NFS file handle
+	staleSeen bool
 
 	uploadedOnce       bool // a digest was computed before (it may be cached)
 	changedSinceDigest bool // ... and the contents changed afterwards
@@ -112,6 +118,14 @@ type world struct {
 	nfs      *virtual.NFSStatefulHandleAllocator
 	watchdog time.Duration
 
+	// viaBuilder: the tree is wired up like bb_worker does it
+	// (NewVirtualBuildDirectory + InstallHooks) and uploads of named
+	// files go through UploadableDirectory.UploadFile.
+	viaBuilder bool
+	router     *routerCAS
+	uploadDirs []builder.UploadableDirectory
+	mask       virtual.AttributesMask
+
 	mu      sync.Mutex
 	ops     []string
 	aborted bool
@@ -123,34 +137,63 @@ func newWorld(r *ev.Run, mode string, caseIdx int, handles string, rng *rand.Ran
 	w := &world{r: r, mode: mode, caseIdx: caseIdx, handles: handles, rng: rng, sits: map[string]int{}, h: sha256.New(), fns: digestFns(), watchdog: 30 * time.Second}
 	w.pool = &instrPool{rep: w, yield: yield}
 	w.errors = &countingErrorLogger{}
+	w.mask = attrMask
 	var handleAllocator virtual.StatefulHandleAllocator
-	if handles == "nfs" {
+	switch {
+	case strings.HasPrefix(handles, "nfs"):
 		w.nfs = virtual.NewNFSHandleAllocator(newDetGenerator(r.Seed(), uint64(caseIdx)))
 		handleAllocator = w.nfs
-	} else {
+	default:
 		handleAllocator = virtual.NewFUSEHandleAllocator(newDetGenerator(r.Seed(), uint64(caseIdx)))
 	}
+	w.viaBuilder = strings.HasSuffix(handles, "+builder")
 	defaultAttributesSetter := func(requested virtual.AttributesMask, attributes *virtual.Attributes) {}
-	fileAllocator := virtual.NewHandleAllocatingFileAllocator(
-		virtual.NewPoolBackedFileAllocator(w.pool, w.errors, defaultAttributesSetter, virtual.NoNamedAttributesFactory),
-		handleAllocator)
+	symlinkFactory := virtual.NewBaseSymlinkFactory(defaultAttributesSetter)
+	clock := vclock.New(1000)
+	var fileAllocator virtual.FileAllocator
+	switch {
+	case handles == "bare":
+		// No handle allocator in front of the files: link counting
+		// is done by the pool-backed file itself.
+		fileAllocator = virtual.NewPoolBackedFileAllocator(w.pool, w.errors, defaultAttributesSetter, virtual.NoNamedAttributesFactory)
+		w.mask = attrMask &^ (virtual.AttributesMaskLinkCount | virtual.AttributesMaskInodeNumber | virtual.AttributesMaskFileHandle)
+	case w.viaBuilder:
+		fileAllocator = noHooksFileAllocator{}
+	default:
+		fileAllocator = virtual.NewHandleAllocatingFileAllocator(
+			virtual.NewPoolBackedFileAllocator(w.pool, w.errors, defaultAttributesSetter, virtual.NoNamedAttributesFactory),
+			handleAllocator)
+	}
 	root := virtual.NewInMemoryPrepopulatedDirectory(
 		fileAllocator,
-		virtual.NewBaseSymlinkFactory(defaultAttributesSetter),
+		symlinkFactory,
 		w.errors,
 		handleAllocator,
 		sort.Sort,
 		func(string) bool { return false },
-		vclock.New(1000),
+		clock,
 		virtual.CaseSensitiveComponentNormalizer,
 		defaultAttributesSetter,
 		virtual.NoNamedAttributesFactory)
+	var bd builder.BuildDirectory
+	if w.viaBuilder {
+		w.router = &routerCAS{}
+		bd = builder.NewVirtualBuildDirectory(root, nil, w.router, symlinkFactory, virtual.BaseCharacterDeviceFactory, handleAllocator, defaultAttributesSetter, clock)
+		bd.InstallHooks(w.pool, w.errors)
+	}
 	w.dirs = append(w.dirs, &mdir{name: "/", dir: root, entries: map[string]*mfile{}})
 	sub, err := root.CreateAndEnterPrepopulatedDirectory(path.MustNewComponent("sub"))
 	if err != nil {
 		panic(err)
 	}
 	w.dirs = append(w.dirs, &mdir{name: "/sub", dir: sub, entries: map[string]*mfile{}})
+	if w.viaBuilder {
+		ud, err := bd.EnterUploadableDirectory(path.MustNewComponent("sub"))
+		if err != nil {
+			panic(err)
+		}
+		w.uploadDirs = []builder.UploadableDirectory{bd, ud}
+	}
 	return w
 }
 
@@ -301,14 +344,41 @@ func (w *world) checkLifetimes(after string) {
 				return
 			}
 			var a virtual.Attributes
-			m.leaf.VirtualGetAttributes(ctx, attrMask, &a)
+			m.leaf.VirtualGetAttributes(ctx, w.mask, &a)
 			if size, ok := a.GetSizeBytes(); !ok || size != uint64(len(m.content)) {
 				w.violate("size-attribute-differs-from-model after="+after, fmt.Sprintf("file %d: size attribute %d, model %d", m.id, size, len(m.content)))
 				return
 			}
-			if lc := a.GetLinkCount(); int(lc) != m.links {
-				w.violate("link-count-differs-from-model after="+after, fmt.Sprintf("file %d: link count attribute %d, model %d", m.id, lc, m.links))
+			if w.mask&virtual.AttributesMaskLinkCount != 0 {
+				if lc := a.GetLinkCount(); int(lc) != m.links {
+					w.violate("link-count-differs-from-model after="+after, fmt.Sprintf("file %d: link count attribute %d, model %d", m.id, lc, m.links))
+					return
+				}
+			}
+			if perm, ok := a.GetPermissions(); !ok || (perm&virtual.PermissionsExecute != 0) != m.exec {
+				w.violate("permissions-differ-from-model after="+after, fmt.Sprintf("file %d: permissions %v, model executable=%v", m.id, perm, m.exec))
 				return
+			}
+		}
+		if w.nfs != nil && m.fh != nil {
+			// A file handle resolves exactly as long as the file has
+			// a directory entry; afterwards it must be stale instead
+			// of leading to the (possibly released) file.
+			child, s := w.nfs.ResolveHandle(bytes.NewReader(m.fh))
+			if m.links > 0 {
+				if _, leaf := child.GetPair(); s != virtual.StatusOK || leaf != m.leaf {
+					w.violate("nfs-handle-of-linked-file-does-not-resolve after="+after, fmt.Sprintf("file %d with %d links: ResolveHandle = %v, same leaf %v", m.id, m.links, s, leaf == m.leaf))
+					return
+				}
+			} else {
+				if s != virtual.StatusErrStale {
+					w.violate("nfs-handle-of-unlinked-file-still-resolves after="+after, fmt.Sprintf("file %d without links: ResolveHandle = %v", m.id, s))
+					return
+				}
+				if !m.staleSeen {
+					m.staleSeen = true
+					w.sit("nfs-handle-of-unlinked-file-stale")
+				}
 			}
 		}
 	}
@@ -369,7 +439,12 @@ func (w *world) opCreate() string {
 		share = virtual.ShareMaskWrite
 	}
 	var create virtual.Attributes
-	create.SetPermissions(virtual.PermissionsRead | virtual.PermissionsWrite)
+	exec := w.rng.IntN(4) == 0
+	if exec {
+		create.SetPermissions(virtual.PermissionsRead | virtual.PermissionsWrite | virtual.PermissionsExecute)
+	} else {
+		create.SetPermissions(virtual.PermissionsRead | virtual.PermissionsWrite)
+	}
 	size := 0
 	if w.rng.IntN(4) == 0 {
 		size = w.rng.IntN(40)
@@ -385,7 +460,7 @@ func (w *world) opCreate() string {
 	}
 	before := len(w.pool.all())
 	var out virtual.Attributes
-	leaf, _, _, s := d.dir.VirtualOpenChild(ctx, comp(name), share, &create, existing, attrMask, &out)
+	leaf, _, _, s := d.dir.VirtualOpenChild(ctx, comp(name), share, &create, existing, w.mask, &out)
 	w.pool.failNext.Store(false)
 	w.logf("create %s/%s share=%s size=%d existing=%v poolFault=%v -> %v", d.name, name, maskName(share), size, existing != nil, poolFault, s)
 	if m, ok := d.entries[name]; ok {
@@ -420,7 +495,10 @@ func (w *world) opCreate() string {
 		w.violate("pool-newfile-count-differs op=create", fmt.Sprintf("pool files before %d, after %d", before, len(w.pool.all())))
 		return "create"
 	}
-	m := &mfile{id: len(w.files), leaf: leaf, ifile: ifile, links: 1, content: make([]byte, size)}
+	m := &mfile{id: len(w.files), leaf: leaf, ifile: ifile, links: 1, content: make([]byte, size), exec: exec}
+	if w.nfs != nil {
+		m.fh = append([]byte(nil), out.GetFileHandle()...)
+	}
 	if share != 0 {
 		m.opens = append(m.opens, share)
 	}
@@ -551,7 +629,7 @@ func (w *world) opSetSize(m *mfile) string {
 		if fault {
 			m.ifile.failTruncate.Store(true)
 		}
-		s := m.leaf.VirtualSetAttributes(ctx, &in, attrMask, &out)
+		s := m.leaf.VirtualSetAttributes(ctx, &in, w.mask, &out)
 		m.ifile.failTruncate.Store(false)
 		return func() {
 			w.logf("setattr f%d size=%d fault=%v -> %v", m.id, size, fault, s)
@@ -576,10 +654,23 @@ func (w *world) opSetSize(m *mfile) string {
 
 func (w *world) opAllocate(m *mfile) string {
 	off, n := w.rng.IntN(len(m.content)+4), w.rng.IntN(12)
+	fault := w.rng.IntN(8) == 0
 	return w.mutate(m, "allocate", func() func() {
+		if fault {
+			m.ifile.failTruncate.Store(true)
+		}
 		s := m.leaf.VirtualAllocate(ctx, uint64(off), uint64(n))
+		consumed := fault && !m.ifile.failTruncate.Load()
+		m.ifile.failTruncate.Store(false)
 		return func() {
-			w.logf("allocate f%d off=%d len=%d -> %v", m.id, off, n, s)
+			w.logf("allocate f%d off=%d len=%d fault=%v -> %v", m.id, off, n, consumed, s)
+			if consumed {
+				if s != virtual.StatusErrIO {
+					w.violate("status-differs op=allocate expected=IO", fmt.Sprintf("got %v", s))
+				}
+				w.sit("failed-allocate")
+				return
+			}
 			if s != virtual.StatusOK {
 				w.violate("status-differs op=allocate expected=OK", fmt.Sprintf("got %v", s))
 				return
@@ -594,11 +685,24 @@ func (w *world) opAllocate(m *mfile) string {
 func (w *world) opOpenSelf(m *mfile) string {
 	share := virtual.ShareMask(1 + w.rng.IntN(3))
 	truncate := w.rng.IntN(4) == 0
+	fault := truncate && w.rng.IntN(4) == 0
 	do := func() func() {
 		var out virtual.Attributes
-		s := m.leaf.VirtualOpenSelf(ctx, share, &virtual.OpenExistingOptions{Truncate: truncate}, attrMask, &out)
+		if fault {
+			m.ifile.failTruncate.Store(true)
+		}
+		s := m.leaf.VirtualOpenSelf(ctx, share, &virtual.OpenExistingOptions{Truncate: truncate}, w.mask, &out)
+		m.ifile.failTruncate.Store(false)
 		return func() {
-			w.logf("open-self f%d share=%s truncate=%v -> %v", m.id, maskName(share), truncate, s)
+			w.logf("open-self f%d share=%s truncate=%v fault=%v -> %v", m.id, maskName(share), truncate, fault, s)
+			if fault {
+				// No descriptor may have been handed out.
+				if s != virtual.StatusErrIO {
+					w.violate("status-differs op=open-self expected=IO", fmt.Sprintf("got %v", s))
+				}
+				w.sit("failed-truncating-open")
+				return
+			}
 			if s != virtual.StatusOK {
 				w.violate("status-differs op=open-self expected=OK", fmt.Sprintf("got %v", s))
 				return
@@ -623,11 +727,23 @@ func (w *world) opOpenChild(d *mdir, name string, m *mfile) string {
 		return w.opOpenSelf(m)
 	}
 	truncate := w.rng.IntN(4) == 0
+	fault := truncate && w.rng.IntN(4) == 0
 	return w.mutate(m, "open-child", func() func() {
 		var out virtual.Attributes
-		leaf, _, _, s := d.dir.VirtualOpenChild(ctx, comp(name), share, nil, &virtual.OpenExistingOptions{Truncate: truncate}, attrMask, &out)
+		if fault {
+			m.ifile.failTruncate.Store(true)
+		}
+		leaf, _, _, s := d.dir.VirtualOpenChild(ctx, comp(name), share, nil, &virtual.OpenExistingOptions{Truncate: truncate}, w.mask, &out)
+		m.ifile.failTruncate.Store(false)
 		return func() {
-			w.logf("open-child %s/%s (f%d) share=%s truncate=%v -> %v", d.name, name, m.id, maskName(share), truncate, s)
+			w.logf("open-child %s/%s (f%d) share=%s truncate=%v fault=%v -> %v", d.name, name, m.id, maskName(share), truncate, fault, s)
+			if fault {
+				if s != virtual.StatusErrIO {
+					w.violate("status-differs op=open-child expected=IO", fmt.Sprintf("got %v", s))
+				}
+				w.sit("failed-truncating-open")
+				return
+			}
 			if s != virtual.StatusOK || leaf != m.leaf {
 				w.violate("status-differs op=open-child expected=OK", fmt.Sprintf("got %v, same leaf %v", s, leaf == m.leaf))
 				return
@@ -657,14 +773,18 @@ func (w *world) opLink(m *mfile) string {
 	d := w.dirs[w.rng.IntN(len(w.dirs))]
 	name := names[w.rng.IntN(len(names))]
 	var out virtual.Attributes
-	_, s := d.dir.VirtualLink(ctx, comp(name), m.leaf, attrMask, &out)
+	_, s := d.dir.VirtualLink(ctx, comp(name), m.leaf, w.mask, &out)
 	w.logf("link f%d as %s/%s (links %d) -> %v", m.id, d.name, name, m.links, s)
 	want := virtual.StatusOK
 	if _, ok := d.entries[name]; ok {
 		want = virtual.StatusErrExist
-	} else if m.links == 0 {
+	} else if m.links == 0 && w.handles != "bare" {
+		// The handle allocators refuse to resurrect a file that has
+		// no directory entry left, even if descriptors are open.
 		want = virtual.StatusErrStale
 		w.sit("link-of-unlinked-file-rejected")
+	} else if w.handles == "bare" {
+		w.sit("link-counted-by-pool-backed-file")
 	}
 	if s != want {
 		w.violate("status-differs op=link expected="+fmt.Sprint(want), fmt.Sprintf("got %v", s))
@@ -739,8 +859,21 @@ func (w *world) opRemoveAll() string {
 func (w *world) opRead(m *mfile) string {
 	off := w.rng.IntN(len(m.content) + 3)
 	buf := make([]byte, w.rng.IntN(40))
+	fault := w.rng.IntN(10) == 0
+	if fault {
+		m.ifile.failRead.Store(true)
+	}
 	n, eof, s := m.leaf.VirtualRead(ctx, buf, uint64(off))
-	w.logf("read f%d off=%d len=%d -> %d,%v,%v", m.id, off, len(buf), n, eof, s)
+	consumed := fault && !m.ifile.failRead.Load()
+	m.ifile.failRead.Store(false)
+	w.logf("read f%d off=%d len=%d fault=%v -> %d,%v,%v", m.id, off, len(buf), consumed, n, eof, s)
+	if consumed {
+		if s != virtual.StatusErrIO || n != 0 {
+			w.violate("status-differs op=read expected=IO", fmt.Sprintf("got (%d, %v)", n, s))
+		}
+		w.sit("failed-read")
+		return "read"
+	}
 	want := 0
 	if off < len(m.content) {
 		want = min(len(buf), len(m.content)-off)
@@ -804,7 +937,42 @@ func (w *world) driveWait(m *mfile, c *asyncCall, dp delayPlan, what string) {
 	}
 }
 
+// findName returns a directory entry of the file, if it has one.
+func (w *world) findName(m *mfile) (int, string) {
+	for di, d := range w.dirs {
+		for _, n := range names {
+			if d.entries[n] == m {
+				return di, n
+			}
+		}
+	}
+	return -1, ""
+}
+
+// opUploadBadName asks the build directory to upload something that is not
+// a file: nothing may reach the CAS.
+func (w *world) opUploadBadName() string {
+	cas := &fakeCAS{chunk: 8, rep: w}
+	w.router.set(cas)
+	defer w.router.set(nil)
+	ch := make(chan struct{})
+	close(ch)
+	name, want := "sub", error(syscall.EISDIR)
+	if w.rng.IntN(2) == 0 {
+		name, want = "nonexistent", syscall.ENOENT
+	}
+	d, err := w.uploadDirs[0].UploadFile(ctx, comp(name), w.fns[0].fn, ch)
+	w.logf("upload-by-name /%s -> %s err=%v", name, digestString(d), err)
+	if !errors.Is(err, want) || d != digest.BadDigest || cas.puts != 0 {
+		w.violate("status-differs op=upload-by-name expected="+want.Error(), fmt.Sprintf("got digest %s err %v, %d Put calls", digestString(d), err, cas.puts))
+	}
+	return "stat"
+}
+
 func (w *world) opUpload(m *mfile) string {
+	if w.viaBuilder && w.rng.IntN(15) == 0 {
+		return w.opUploadBadName()
+	}
 	fn := w.fns[w.rng.IntN(len(w.fns))]
 	cas := &fakeCAS{file: m.ifile, chunk: 1 + w.rng.IntN(16), rep: w}
 	switch w.rng.IntN(10) {
@@ -821,11 +989,25 @@ func (w *world) opUpload(m *mfile) string {
 	if readFault {
 		m.ifile.failRead.Store(true)
 	}
+	di, name := w.findName(m)
+	byName := w.viaBuilder && di >= 0 && w.rng.IntN(4) != 0
 	c := w.async(func() {
+		if byName {
+			// As bb_worker does it: by name, through the
+			// (sub)directory, with the CAS the build directory was
+			// constructed with.
+			w.router.set(cas)
+			p.Digest, p.Err = w.uploadDirs[di].UploadFile(ctx, comp(name), fn.fn, dp.ch)
+			w.router.set(nil)
+			return
+		}
 		if !m.leaf.VirtualApply(p) {
 			w.violate("apply-not-handled op=upload", "VirtualApply(ApplyUploadFile) returned false")
 		}
 	})
+	if byName {
+		w.sit("upload-through-build-directory")
+	}
 	w.driveWait(m, c, dp, "upload")
 	if !w.await(c, "upload") {
 		return "upload"
@@ -996,15 +1178,119 @@ func (w *world) opReadFrozen(m *mfile) string {
 	}
 	if n != want || !bytes.Equal(buf[:n], m.content[min(off, len(m.content)):min(off, len(m.content))+want]) || lerr != nil || l != int64(len(m.content)) {
 		w.violate("frozen-read-differs-from-model", fmt.Sprintf("ReadAt(len %d, off %d) on %d bytes = (%d, %v), Len = (%d, %v)", len(buf), off, len(m.content), n, err, l, lerr))
+		return "read"
+	}
+	if off < len(m.content) {
+		next, serr := r.GetNextRegionOffset(int64(off), filesystem.Hole)
+		if serr != nil || next != int64(len(m.content)) {
+			w.violate("frozen-seek-differs-from-model", fmt.Sprintf("GetNextRegionOffset(%d, hole) on %d bytes = (%d, %v)", off, len(m.content), next, serr))
+		}
 	}
 	return "read"
+}
+
+// opSeek exercises VirtualSeek: the pool file reports a tail of null bytes
+// as "no more data".
+func (w *world) opSeek(m *mfile) string {
+	off := w.rng.IntN(len(m.content) + 2)
+	rt := filesystem.Data
+	if w.rng.IntN(3) == 0 {
+		rt = filesystem.Hole
+	}
+	fault := w.rng.IntN(8) == 0
+	if fault {
+		m.ifile.failSeek.Store(true)
+	}
+	res, s := m.leaf.VirtualSeek(ctx, uint64(off), rt)
+	consumed := fault && !m.ifile.failSeek.Load()
+	m.ifile.failSeek.Store(false)
+	w.logf("seek f%d off=%d type=%d fault=%v -> %v,%v", m.id, off, rt, consumed, res != nil, s)
+	switch {
+	case off >= len(m.content):
+		if s != virtual.StatusErrNXIO {
+			w.violate("status-differs op=seek expected=NXIO", fmt.Sprintf("got %v", s))
+		}
+	case consumed:
+		if s != virtual.StatusErrIO {
+			w.violate("status-differs op=seek expected=IO", fmt.Sprintf("got %v", s))
+		}
+		w.sit("failed-seek")
+	default:
+		var want *uint64
+		if rt == filesystem.Hole {
+			v := uint64(len(m.content))
+			want = &v
+		} else if len(bytes.Trim(m.content[off:], "\x00")) > 0 {
+			v := uint64(off)
+			want = &v
+		}
+		if s != virtual.StatusOK || (res == nil) != (want == nil) || (res != nil && *res != *want) {
+			w.violate("seek-differs-from-model", fmt.Sprintf("VirtualSeek(%d, %d) on %d bytes = (%v, %v)", off, rt, len(m.content), res, s))
+		}
+		if want == nil {
+			w.sit("seek-finds-no-more-data")
+		}
+	}
+	return "read"
+}
+
+// opChmod changes the executable bit (no contents change, must not wait for
+// frozen readers); opChown must be refused.
+func (w *world) opChmod(m *mfile) string {
+	var in, out virtual.Attributes
+	if w.rng.IntN(5) == 0 {
+		in.SetOwnerUserID(uint32(w.rng.IntN(3)))
+		if w.rng.IntN(2) == 0 {
+			in = virtual.Attributes{}
+			in.SetOwnerGroupID(1)
+		}
+		s := m.leaf.VirtualSetAttributes(ctx, &in, w.mask, &out)
+		w.logf("chown f%d -> %v", m.id, s)
+		if s != virtual.StatusErrPerm {
+			w.violate("status-differs op=chown expected=PERM", fmt.Sprintf("got %v", s))
+		}
+		return "stat"
+	}
+	exec := w.rng.IntN(2) == 0
+	perm := virtual.PermissionsRead | virtual.PermissionsWrite
+	if exec {
+		perm |= virtual.PermissionsExecute
+	}
+	in.SetPermissions(perm)
+	s := m.leaf.VirtualSetAttributes(ctx, &in, w.mask, &out)
+	w.logf("chmod f%d exec=%v (frozen readers %d) -> %v", m.id, exec, len(m.frozen), s)
+	if s != virtual.StatusOK {
+		w.violate("status-differs op=chmod expected=OK", fmt.Sprintf("got %v", s))
+		return "stat"
+	}
+	m.exec = exec
+	if m.leaf.VirtualApply(&virtual.ApplyGetContainingDigests{Context: ctx}) {
+		w.violate("apply-of-unsupported-operation-handled", "VirtualApply(ApplyGetContainingDigests) returned true for a pool-backed file")
+	}
+	return "stat"
 }
 
 func (w *world) opStat(m *mfile) string {
 	fn := w.fns[w.rng.IntN(len(w.fns))]
 	p := &virtual.ApplyGetBazelOutputServiceStat{DigestFunction: &fn.fn}
+	fault := w.rng.IntN(6) == 0
+	if fault {
+		m.ifile.failRead.Store(true)
+	}
 	m.leaf.VirtualApply(p)
-	w.logf("stat-digest f%d fn=%s writers=%d -> err=%v", m.id, fn.name, m.writers(), p.Err)
+	consumed := fault && !m.ifile.failRead.Load()
+	m.ifile.failRead.Store(false)
+	w.logf("stat-digest f%d fn=%s writers=%d fault=%v -> err=%v", m.id, fn.name, m.writers(), consumed, p.Err)
+	if consumed {
+		// The digest could not be computed; the frozen reader that
+		// was opened for it must have been given back (lifetime and
+		// hang oracles).
+		if p.Err == nil {
+			w.violate("error-swallowed op=stat-digest", "the pool file failed to read, but a stat was returned")
+		}
+		w.sit("stat-pool-read-failure")
+		return "stat"
+	}
 	if p.Err != nil {
 		w.violate("status-differs op=stat-digest expected=OK", p.Err.Error())
 		return "stat"
@@ -1046,6 +1332,10 @@ func (w *world) opPersist(m *mfile) string {
 			w.violate("reported-digest-differs-from-contents op=persistency-node", fmt.Sprintf("file %d: node reports %s/%d, contents are %d bytes with sha256 %s", m.id, fnode.Digest.GetHash(), fnode.Digest.GetSizeBytes(), len(m.content), w.fns[0].sum(m.content)))
 			return "stat"
 		}
+		if fnode.IsExecutable != m.exec {
+			w.violate("persistency-node-executable-bit-differs", fmt.Sprintf("file %d: node says executable=%v, model %v", m.id, fnode.IsExecutable, m.exec))
+			return "stat"
+		}
 		w.r.Count("persistency_digests_verified", 1)
 	}
 	return "stat"
@@ -1065,7 +1355,7 @@ func (w *world) opStale(m *mfile) string {
 			for _, n := range names {
 				if _, ok := d.entries[n]; !ok {
 					var out virtual.Attributes
-					if _, s := d.dir.VirtualLink(ctx, comp(n), m.leaf, attrMask, &out); s != virtual.StatusErrStale {
+					if _, s := d.dir.VirtualLink(ctx, comp(n), m.leaf, w.mask, &out); s != virtual.StatusErrStale {
 						w.violate("stale-operation-not-rejected op=link", fmt.Sprintf("VirtualLink of a file without references returned %v", s))
 					}
 					break
@@ -1074,7 +1364,7 @@ func (w *world) opStale(m *mfile) string {
 		case 1:
 			what = "open-self"
 			var out virtual.Attributes
-			if s := m.leaf.VirtualOpenSelf(ctx, virtual.ShareMask(1+w.rng.IntN(3)), &virtual.OpenExistingOptions{Truncate: w.rng.IntN(2) == 0}, attrMask, &out); s != virtual.StatusErrStale {
+			if s := m.leaf.VirtualOpenSelf(ctx, virtual.ShareMask(1+w.rng.IntN(3)), &virtual.OpenExistingOptions{Truncate: w.rng.IntN(2) == 0}, w.mask, &out); s != virtual.StatusErrStale {
 				w.violate("stale-operation-not-rejected op=open-self", fmt.Sprintf("VirtualOpenSelf of a file without references returned %v", s))
 			}
 		case 2:
@@ -1106,14 +1396,14 @@ func (w *world) opStale(m *mfile) string {
 		case 5:
 			what = "getattr"
 			var a virtual.Attributes
-			m.leaf.VirtualGetAttributes(ctx, attrMask, &a)
+			m.leaf.VirtualGetAttributes(ctx, w.mask, &a)
 		case 6:
 			// truncate(2) by path racing with the last unlink: needs
 			// no descriptor.
 			what = "setattr-size"
 			var in, out virtual.Attributes
 			in.SetSizeBytes(uint64(w.rng.IntN(8)))
-			if s := m.leaf.VirtualSetAttributes(ctx, &in, attrMask, &out); s == virtual.StatusOK {
+			if s := m.leaf.VirtualSetAttributes(ctx, &in, w.mask, &out); s == virtual.StatusOK {
 				w.violate("stale-operation-not-rejected op=setattr-size", "VirtualSetAttributes(size) of a file without references returned OK")
 			}
 		}
@@ -1177,12 +1467,18 @@ func (w *world) step() string {
 			}
 		case k < 70:
 			return w.opRemoveAll()
-		case k < 75:
+		case k < 73:
 			for _, s := range m.opens {
 				if s&virtual.ShareMaskRead != 0 {
 					return w.opRead(m)
 				}
 			}
+		case k < 74:
+			if len(m.opens) > 0 {
+				return w.opSeek(m)
+			}
+		case k < 75:
+			return w.opChmod(m)
 		case k < 83:
 			return w.opUpload(m)
 		case k < 85:
@@ -1268,6 +1564,12 @@ func (w *world) finish() {
 func runStepped(r *ev.Run, i int) {
 	rng := r.Rand(1, uint64(i))
 	handles := []string{"nfs", "fuse"}[i%2]
+	switch {
+	case i%5 == 4:
+		handles = "bare"
+	case i%3 == 0:
+		handles += "+builder"
+	}
 	steps := 30 + rng.IntN(120)
 	r.Case("stepped case=%d handles=%s steps=%d", i, handles, steps)
 	w := newWorld(r, "stepped", i, handles, rng, false)
@@ -1289,7 +1591,7 @@ func TestCheck(t *testing.T) {
 	r.Assume("the instrumented pool file is the ground truth for the bytes of a file; FilePool handles are not thread-safe, so any two overlapping calls on one handle are reported")
 	floors := []string{"last-reference-dropped-by-unlink", "last-reference-dropped-by-close-after-unlink", "last-reference-dropped-by-close-frozen",
 		"unlinked-while-descriptor-open", "writer-blocked-by-frozen-reader", "upload-after-timeout-with-writer-open", "upload-waited-for-writers-to-close",
-		"last-reference-dropped-by-upload-finishing-last", "stale-file-operation", "link-of-unlinked-file-rejected", "upload-cas-failure", "upload-after-content-change", "stress-round", "stress-upload-raced-writer"}
+		"last-reference-dropped-by-upload-finishing-last", "stale-file-operation", "link-of-unlinked-file-rejected", "failed-truncating-open", "failed-allocate", "stat-pool-read-failure", "failed-read", "link-counted-by-pool-backed-file", "upload-through-build-directory", "nfs-handle-of-unlinked-file-stale", "upload-cas-failure", "upload-after-content-change", "stress-round", "stress-upload-raced-writer"}
 	if rf := r.ReplayFile(); rf != "" {
 		// Re-run exactly the recorded case (stepped cases are
 		// deterministic up to goroutine scheduling; stress rounds are
